@@ -216,7 +216,19 @@ def corner_envs():
     reps.append(F(n, 'REP', 'BYTES', 'K', 0, 0, None)); n += 1
     reps.append(F(n, 'REP', 'MESSAGE', 'K', 0, 0, 0)); n += 1
     e3 = Env([MsgDesc(0, reps, 0, 0)])
-    return [e1, e2, e3]
+    # oneofs with several message-typed members inside a message that can be split over occurrences (merge paths)
+    e4 = Env([MsgDesc(0, [F(1, 'OPT', 'MESSAGE', 'N', 0, 0, 1), F(2, 'REP', 'MESSAGE', 'K', 0, 0, 1)], 0, 0),
+              MsgDesc(1, [F(1, 'OPT', 'MESSAGE', 'C0', 0, 1, 2), F(2, 'OPT', 'MESSAGE', 'C0', 0, 1, 2),
+                          F(3, 'OPT', 'INT32', 'C0', 0, 1, None), F(4, 'OPT', 'STRING', 'C0', 0, 1, None),
+                          F(5, 'REP', 'INT32', 'K', 0, 0, None), F(6, 'OPT', 'BYTES', 'C1', 0, 1, None),
+                          F(7, 'OPT', 'MESSAGE', 'C1', 0, 1, 1), F(8, 'OPT', 'BYTES', 'H', 0, 0, None)], 2, 1),
+              MsgDesc(2, [F(1, 'OPT', 'INT32', 'H', 0, 0, None), F(2, 'OPT', 'STRING', 'N', 0, 0, None),
+                          F(3, 'REP', 'STRING', 'K', 0, 0, None)], 0, 0)])
+    e5 = Env([MsgDesc(0, [F(1, 'NONE', 'MESSAGE', 'N', 0, 0, 1)], 0, 1),
+              MsgDesc(1, [F(1, 'NONE', 'MESSAGE', 'C0', 0, 1, 1), F(2, 'NONE', 'MESSAGE', 'C0', 0, 1, 0),
+                          F(3, 'NONE', 'SINT64', 'C0', 0, 1, None), F(4, 'NONE', 'INT64', 'N', 0, 0, None),
+                          F(5, 'NONE', 'BYTES', 'N', 0, 0, None), F(6, 'REP', 'DOUBLE', 'K', 1, 0, None)], 1, 0)])
+    return [e1, e2, e3, e4, e5]
 
 
 # ---------------------------------------------------------------- messages
